@@ -13,6 +13,13 @@ NOTE = ("Trusted base: clang 14 front end + CFG builder on the flags of the comp
 
 CLAIMS = {
     # pid: (technique, level text, design_ref)
+    "C08": ("who-may-call for the character writers + guard analysis of add_char's CR/LF arms; extraction of the (option, census) -> terminator table at the tail of tokenize(); backward/forward must-pass-through pairing of every line-break event of the tokenizer with a census increment; CR/LF sibling-comparison check (thorough)",
+            "Every output character is shown to pass add_char, where LF becomes exactly cpd.newline and CR is dropped; cpd.newline "
+            "is assigned only by an exhaustive three-row table at the end of tokenize(); each of the tokenizer's line-break events "
+            "outside disabled regions is paired with one census increment on every path (4 string-parser sites are recorded known "
+            "findings with replay inputs); the thorough tier checks that every function comparing input with LF also handles CR. "
+            "This is what makes terminator choice and normalisation independent of where a line break sits. The two-run "
+            "commutation equations are not decided.", "DESIGN.md section 4 C08"),
     "C09": ("closed-form table agreement: numeric extraction of the UTF-8 encoder/decoder branch tables and of the UTF-16 surrogate arithmetic from the expression trees, exhaustiveness of the encoding switches, who-may-write for cpd.enc/cpd.bom and who-may-call for the byte writers",
             "For all six UTF-8 lengths the encoder's bit fields are shown disjoint and covering, its thresholds equal 2^(payload "
             "bits), and the decoder's lead masks, payload masks, continuation counts and per-length minimum (overlong rejection) "
